@@ -3,11 +3,26 @@
 package gen
 
 import (
+	"os"
 	"sort"
 	"strings"
 
 	"pgregory.net/rapid"
 )
+
+// Thorough reports whether the thorough tier is running (VERIF_TIER is set by
+// the driver). Generators then also draw larger structures.
+func Thorough() bool { return os.Getenv("VERIF_TIER") == "thorough" }
+
+// Upto returns the upper bound for a size draw: n in the quick tier; in the
+// thorough tier one case in three may go up to 3n.
+func Upto(t *rapid.T, label string, n int) int {
+	if Thorough() && rapid.IntRange(0, 2).Draw(t, label+"-big") == 0 {
+		return 3 * n
+	}
+
+	return n
+}
 
 // reserved are names never used for types or fields: "id" and "type" are
 // forbidden by JSON:API as field names, "meta" and "relationships" are path
